@@ -203,6 +203,48 @@ def run_shell_case(mode: str, action: str):
         shutil.rmtree(tmp, ignore_errors=True)
 
 
+def run_python_case(mode: str, action: str):
+    """a real python task that reports (action=report) or appends to (action=append) the file it receives"""
+    from pydra.engine.submitter import Submitter
+
+    def body(x):
+        if action == "append":
+            with open(x, "a") as fh:
+                fh.write("+task")
+        return str(x), Path(x).read_text()
+
+    Task = python.define(body, inputs={"x": python.arg(type=File, copy_mode=FileSet.CopyMode[mode], help="the staged file")}, outputs={"received": str, "seen": str}, name="PyStage")
+    tmp = Path(os.path.realpath(tempfile.mkdtemp(prefix="vf_c34p_")))
+    try:
+        src = T.build_sources(tmp)
+        f = src / "d1/out.txt"
+        task = Task(x=File(f))
+        raised = None
+        res = None
+        with Submitter(cache_root=tmp / "cache", worker="debug") as sub:
+            try:
+                res = sub(task)
+            except Exception as e:
+                raised = f"{type(e).__name__}: {str(e)[:160]}"
+        probs = []
+        desc = {"mode": mode, "action": action, "raised": raised}
+        if f.read_text() != "d1-out" and not T.MODES[mode] & (T.LEAVE | T.HARD | T.SYM):
+            probs.append(f"copy-not-independent: the task wrote to the file it received and the original now reads {f.read_text()!r}")
+        if res is not None:
+            received = Path(res.outputs.received)
+            desc["received"] = str(received).replace(str(tmp), "")
+            kind = T.LEAVE if received == f else None
+            if kind == T.LEAVE and not T.MODES[mode] & T.LEAVE:
+                probs.append(f"mode: the task received the original path although the copy mode {mode} does not allow leaving the file in place")
+            if res.outputs.seen != ("d1-out+task" if action == "append" else "d1-out"):
+                probs.append(f"content: the task saw {res.outputs.seen!r}")
+        elif raised and not probs:
+            probs.append(f"raised: {raised}")
+        return [p.replace(str(tmp), "") for p in probs], desc
+    finally:
+        shutil.rmtree(tmp, ignore_errors=True)
+
+
 def cases(ctx):
     out = []
     modes = list(T.MODES)
@@ -225,7 +267,7 @@ def cases(ctx):
     return out
 
 
-def run(ctx):
+def _run(ctx):
     ctx.level = "other"
     ctx.explanation = (
         "Job.inputs is evaluated on real Jobs of generated python task classes whose file fields carry every copy "
@@ -237,7 +279,7 @@ def run(ctx):
         "mode allows and the mount table does not rule out; a copy is written to and the original must not change; "
         "the original of a link is updated in place and the link must show it; shapes, non-file values, destinations "
         "inside the job directory, one destination per repeated object and collation (siblings/adjacent) are checked. "
-        "A real shell task that appends to / prints its input is run per mode."
+        "A real shell task and a real python task that append to / report their input are run per mode."
     )
     cs = cases(ctx)
     dom = ctx.domain(
@@ -271,9 +313,27 @@ def run(ctx):
             ctx.fail(f"{probs[0].split(':')[0]}@shell-{mode}-{action}", f"C34: shell task mode={mode} {action}: {probs[0]}", {"shell": True, **desc}, domain=dom2)
 
 
-def replay(rec):
+    dom3 = ctx.domain(
+        "python-task-end-to-end",
+        bound="a real python task with one File argument, modes copy/hardlink/symlink/any, action report (return the received path and content) or append-in-place (copy only)",
+        rule="one Submitter run (debug worker) per (mode, action); non-trivial = always",
+        exhaustive=True,
+    )
+    for mode, action in [("copy", "report"), ("copy", "append"), ("hardlink", "report"), ("symlink", "report"), ("any", "report")]:
+        probs, desc = run_python_case(mode, action)
+        dom3.case((mode, action), sample=desc)
+        if probs:
+            desc["problems"] = probs
+            kinds = "+".join(sorted({p.split(":")[0] for p in probs}))
+            ctx.fail("python-task-receives-original" if kinds in ("mode", "copy-not-independent", "copy-not-independent+mode") else f"{kinds}@python-{mode}-{action}",
+                     f"C34: python task mode={mode} {action}: {probs[0]}", {"python": True, **desc}, domain=dom3)  # fmt: skip
+
+
+def _replay(rec):
     case = rec["case"]
-    if case.get("shell"):
+    if case.get("python"):
+        probs, desc = run_python_case(case["mode"], case["action"])
+    elif case.get("shell"):
         probs, desc = run_shell_case(case["mode"], case["action"])
     else:
         _, (probs, desc) = next(run_cases([(case["shape"], tuple(case["leaves"]), case["mode"], case["collation"], case["mounts"])], 1))
@@ -282,3 +342,13 @@ def replay(rec):
         print(f"VIOLATION property=C34 replay={rec.get('_path', '')}")
         return 1
     return 0
+
+
+def run(ctx):
+    with T.private_hash_cache():
+        _run(ctx)
+
+
+def replay(rec):
+    with T.private_hash_cache():
+        return _replay(rec)
